@@ -1,5 +1,9 @@
 import Lace.Props.C17
 #print axioms Lace.C17.span_starts_at_statement_token
+#print axioms Lace.C17.span_covers_operands_holds
+#print axioms Lace.C17.multiword_share_span_holds
+#print axioms Lace.C17.span_inside_source_holds
+#print axioms Lace.C17.show_single_line_no_panic
 #print axioms Lace.C17.span_text_eq_statement_partial
 #print axioms Lace.C17.no_statement_no_text
 #print axioms Lace.C17.statement_text
